@@ -37,6 +37,15 @@ REQUIRED_COUNTERS = [
     "multi_element.refers_to_primary", "definitions.holding_class", "reserialized.same_tree_other_arguments",
 ]
 
+ANCHORS = [
+    "statham.serializers.json:serialize_json",
+    "statham.serializers.json:_serialize_element",
+    "statham.serializers.json:_serialize_recursive",
+    "statham.serializers.json:_from_definitions",
+    "statham.serializers.orderer:get_object_classes",
+    "statham.serializers.orderer:get_children",
+]
+
 
 def plan(tier):
     if tier == "quick":
